@@ -34,6 +34,17 @@ func describe(repo string) int {
 			fmt.Printf("**Not decided (runtime quantities, stated honestly).** %s.\n\n", strings.Join(r.NotDecided, "; "))
 		}
 		fmt.Printf("**Trusted base.** %s.\n\n", r.Trusted)
+		if len(r.Imports) > 0 {
+			fmt.Printf("**Clauses shared with other properties** (re-evaluated and reported under this property as well, because its statement depends on them):\n\n")
+			for _, im := range r.Imports {
+				m := ""
+				if im.Match != "" {
+					m = " (`" + im.Match + "`)"
+				}
+				fmt.Printf("* `%s` ← `%s`%s: %s\n", im.As, im.From, m, im.Why)
+			}
+			fmt.Println()
+		}
 		// obligations by id
 		type agg struct {
 			n     int
